@@ -418,7 +418,66 @@ let cli_mode () =
     | _ -> ()
   done with End_of_file -> ())
 
+(* ---------- AV1 syntax encoder (Spec/Av1Syntax.v): AST given as a flat token list ---------- *)
+let av1enc_mode () =
+  (try while true do
+    let line = input_line stdin in
+    match words line with
+    | "av1" :: id :: toks ->
+        let q = ref toks in
+        let nx () = match !q with t :: r -> q := r; n_of_hex t | [] -> failwith "short ast" in
+        let bl () = not (nx () = N0) in
+        let profile = nx () in let still = bl () in let reduced = bl () in let rlevel = nx () in
+        let timing =
+          if bl () then begin
+            let nu = nx () in let ts = nx () in
+            let epi = if bl () then Some (nx ()) else None in
+            let dmi = if bl () then begin
+                let a = nx () in let b = nx () in let c = nx () in let d = nx () in
+                Some { dm_buffer_delay_length_minus_1 = a; dm_num_units_in_decoding_tick = b;
+                       dm_buffer_removal_time_length_minus_1 = c; dm_frame_presentation_time_length_minus_1 = d } end
+              else None in
+            Some ({ ti_num_units_in_display_tick = nu; ti_time_scale = ts; ti_num_ticks_per_picture_minus_1 = epi }, dmi)
+          end else None in
+        let iddp = bl () in
+        let nops = int_of_n (nx ()) in
+        let ops = List.init nops (fun _ ->
+          let idc = nx () in let lvl = nx () in let tier = bl () in
+          let params = if bl () then (let a = nx () in let b = nx () in let c = bl () in Some ((a, b), c)) else None in
+          let idd = if bl () then Some (nx ()) else None in
+          { op_idc = idc; op_seq_level_idx = lvl; op_seq_tier = tier; op_parameters = params;
+            op_initial_display_delay_minus_1 = idd }) in
+        let fwb = nx () in let fhb = nx () in let mw = nx () in let mh = nx () in
+        let fid = if bl () then (let a = nx () in let b = nx () in Some (a, b)) else None in
+        let b128 = bl () in let fi = bl () in let ief = bl () in
+        let ii = bl () in let mc = bl () in let wm = bl () in let df = bl () in
+        let oh = if bl () then (let a = bl () in let b = bl () in let c = nx () in Some ((a, b), c)) else None in
+        let tri () = match int_of_n (nx ()) with 2 -> None | 0 -> Some false | _ -> Some true in
+        let sct = tri () in let imv = tri () in
+        let sr = bl () in let cdef = bl () in let rest = bl () in
+        let hbd = bl () in let tb = bl () in let mono = bl () in
+        let desc = if bl () then (let a = nx () in let b = nx () in let c = nx () in Some ((a, b), c)) else None in
+        let range = bl () in let sx = bl () in let sy = bl () in let csp = nx () in let suv = bl () in
+        let fg = bl () in
+        let cc = { cc_high_bitdepth = hbd; cc_twelve_bit = tb; cc_mono_chrome = mono; cc_description = desc;
+                   cc_color_range = range; cc_subsampling_x = sx; cc_subsampling_y = sy;
+                   cc_chroma_sample_position = csp; cc_separate_uv_delta_q = suv } in
+        let s = { sh_seq_profile = profile; sh_still_picture = still; sh_reduced_still_picture_header = reduced;
+                  sh_reduced_level = rlevel; sh_timing = timing; sh_initial_display_delay_present = iddp;
+                  sh_operating_points = ops; sh_frame_width_bits_minus_1 = fwb; sh_frame_height_bits_minus_1 = fhb;
+                  sh_max_frame_width_minus_1 = mw; sh_max_frame_height_minus_1 = mh; sh_frame_id = fid;
+                  sh_use_128x128_superblock = b128; sh_enable_filter_intra = fi; sh_enable_intra_edge_filter = ief;
+                  sh_enable_interintra_compound = ii; sh_enable_masked_compound = mc; sh_enable_warped_motion = wm;
+                  sh_enable_dual_filter = df; sh_order_hint = oh; sh_force_screen_content_tools = sct;
+                  sh_force_integer_mv = imv; sh_enable_superres = sr; sh_enable_cdef = cdef;
+                  sh_enable_restoration = rest; sh_color = cc; sh_film_grain_params_present = fg } in
+        Printf.printf "av1 %s %s %s %s %s %s\n" id (s01 (valid_seq s)) (hex_of_bytes (seq_obu None s))
+          (hex_of_n profile) (hex_of_n (seq_level0 s)) (hex_of_n (seq_tier0 s))
+    | _ -> ()
+  done with End_of_file -> ())
+
 let () =
+  if Array.length Sys.argv > 1 && Sys.argv.(1) = "av1enc" then (av1enc_mode (); exit 0);
   if Array.length Sys.argv > 1 && Sys.argv.(1) = "pairs" then (pairs_mode (); exit 0);
   if Array.length Sys.argv > 1 && Sys.argv.(1) = "cli" then (cli_mode (); exit 0);
   let check = Array.length Sys.argv > 2 && Sys.argv.(1) = "check" in
